@@ -246,7 +246,7 @@ impl Prop for C07Timed {
     type Case = PlanCase;
     const ID: &'static str = "C07";
     const PART: &'static str = "timed-equals-budget";
-    const RULE: &'static str = "run X: setup, solve under a real 0.1-3 ms wall-clock timeout (PRM: construct_roadmap with that build time), then solve(budget m) on the same instance; the hook reports how many iterations k the timed call started. Run Y: the same with the timed call replaced by solve(budget k) (construct_roadmap(budget k)). Results and tree / roadmap snapshots (states, parents, costs, adjacency) of X and Y must be identical bit for bit after both calls. Non-trivial = the timed call ended by timeout after >= 5 iterations.";
+    const RULE: &'static str = "run X: setup, solve under a real 0.1-3 ms wall-clock timeout (PRM: construct_roadmap with that build time), then solve(budget m) on the same instance; the hook reports how many iterations k the timed call started. Run Y: the same with the timed call replaced by solve(budget k) (construct_roadmap(budget k)). Results and tree / roadmap snapshots (states, parents, costs, adjacency) of X and Y must be identical bit for bit after both calls. PRM: one more query on the finished roadmap under a 0-50 us deadline must return the untimed answer or Err(Timeout). A fifth of the timed calls get a deadline of 0-20 us. Non-trivial = the timed call ended by timeout after >= 5 iterations.";
     fn random_cases(tier: Tier) -> usize {
         tier.pick(4_000, 30_000)
     }
@@ -256,16 +256,22 @@ impl Prop for C07Timed {
             max_obst: 3,
             budget_scale: 0.3,
             big_radius: true,
+            // goal regions whose first target is invalid: RRT-Connect re-draws its goal root
+            // inside the timed call
+            p_goal_blocked: 0.25,
             ..Default::default()
         };
         let mut c = gen_plan_case(ch, &prof);
         if ch.prob(0.7) {
             c.problems[0].goal.radius *= 0.05;
         }
-        let us = ch.int(100, 3000) as u64;
+        // mostly 0.1-3 ms; a fifth of the time a deadline that has passed before the first
+        // iteration (0-20 us), which is where set-up work done under the clock shows
+        let us = if ch.prob(0.2) { ch.pick(&[0u64, 1, 5, 20]) } else { ch.int(100, 3000) as u64 };
         let m = ch.int(5, 200) as u64;
         c.ops = if c.planner == PlannerTag::PRM {
-            vec![Op::Setup(0), Op::ConstructTimed { us }, Op::Solve { budget: m }]
+            // (the last op: a query under a real deadline of 0-50 us on the finished roadmap)
+            vec![Op::Setup(0), Op::ConstructTimed { us }, Op::Solve { budget: m }, Op::SolveTimed { us: ch.pick(&[0u64, 1, 5, 20, 50]) }]
         } else {
             vec![Op::Setup(0), Op::SolveTimed { us }, Op::Solve { budget: m }]
         };
@@ -299,6 +305,24 @@ impl Prop for C07Timed {
             return;
         }
         for (i, (a, b)) in tx.steps.iter().zip(&ty.steps).enumerate() {
+            if i == 3 {
+                // PRM query under a deadline on a finished roadmap: the clock may turn the answer
+                // into Err(Timeout), nothing else (the untimed answer is that of step 2)
+                for t in [a, b] {
+                    let timed_out = matches!(&t.res, Res::Err(e) if e == "Timeout");
+                    if !timed_out && !t.res.same(&tx.steps[2].res) {
+                        ctx.fail(
+                            format!("C07:timed-query-differs:{pname}"),
+                            format!("the same query on the same roadmap returned {} without a deadline and {} under a deadline of {:?}", describe(&tx.steps[2].res), describe(&t.res), t.op),
+                        );
+                        return;
+                    }
+                    if timed_out {
+                        ctx.label("prm-timed-query:Timeout");
+                    }
+                }
+                continue;
+            }
             let what = match i {
                 1 => "timed-call",
                 2 => "call-after-timed-call",
